@@ -231,11 +231,11 @@ def modelEnteredHeaders (k : Kind) (cfg : Config) (buf : List Byte) : Bool :=
   | .hdrs => true
   | .req =>
     match (do skipEmptyLines; let _ ← parseMethod; optSkipSpaces cfg.multiReq; let _ ← parseUri specBackend
-              optSkipSpaces cfg.multiReq; let _ ← parseVersion; newline : P Unit) (Cur.new buf) with
+              optSkipSpaces cfg.multiReq; let _ ← parseVersion; newline : P Unit).run (Cur.new buf) with
     | .ok _ => true | _ => false
   | .resp =>
     match (do skipEmptyLines; let _ ← parseVersion; space .version; optSkipSpaces cfg.multiResp
-              let _ ← parseCode; let _ ← reasonBranch cfg.multiResp; pure () : P Unit) (Cur.new buf) with
+              let _ ← parseCode; let _ ← reasonBranch cfg.multiResp; pure () : P Unit).run (Cur.new buf) with
     | .ok _ => true | _ => false
 
 def fmtFinding (f : Finding) (caseLine real model : String) : String :=
